@@ -104,6 +104,41 @@ def run_config(ctx, lw, rng, cfg=None):
         ctx.count("skipped_unnormalised")
         return
     threshold_multi_herald = bool(h["output"]) and max(h["output"].values()) > 1 and not pc
+    if rng.random() < 0.15:
+        # requests the sampler has to refuse come first, on the very object that is then sampled from
+        n_ref = 0
+        for _ in range(int(rng.integers(1, 4))):
+            what = int(rng.integers(9))
+            try:
+                if what == 0:
+                    smp.sample_N_inputs(-3)
+                elif what == 1:
+                    smp.sample_N_inputs(10, post_select=5)
+                elif what == 2:
+                    smp.sample_N_outputs(10, min_detection=1.5)
+                elif what == 3:
+                    smp.detector = 3
+                elif what == 4:
+                    smp.input_state = State([1] * (k + 1))
+                    _ = smp.probability_distribution
+                elif what == 5:
+                    smp.sample_N_inputs(10, seed="seed")
+                elif what == 6:
+                    smp.detector.efficiency = 1.5
+                elif what == 7:
+                    smp.sample_N_outputs(10, post_select=lambda s: False)       # nothing can be accepted
+                else:
+                    smp.sample_N_inputs(2.5)
+            except Exception:  # noqa: BLE001
+                n_ref += 1
+            if what == 4:
+                try:
+                    smp.input_state = State(occ)
+                except Exception:  # noqa: BLE001
+                    pass
+        if n_ref:
+            ctx.bucket("sampled_after_refused_requests")
+            case["refused_requests_before"] = n_ref
     emumon.DET_LOG = {}
     try:
         if method == "n_inputs":
